@@ -345,6 +345,11 @@ def job(name, depth):
 
 
 def replay_trace(jobname, trace):
+    if jobname.startswith('bat-'):
+        from mc import jobs as _jobs
+        from mc.checks import c15_cluster
+        table = {s['name']: s for t in ('quick', 'thorough') for s in c15_cluster.specs(t)}
+        return _jobs.replay_cluster(table[jobname], trace)
     _, name, depth = jobname.split(':')
     m = BatteryModel(name, 99)
     ops = m.spec['ops']
